@@ -54,6 +54,7 @@ impl DhtKey {
     }
 
     /// XOR distance metric for Kademlia
+    #[cfg_attr(kani, kani::ensures(|r: &[u8; 32]| verif_proofs::spec_is_xor(&self.0, &other.0, r)))]
     pub fn distance(&self, other: &DhtKey) -> [u8; 32] {
         let mut result = [0u8; 32];
         for (i, out) in result.iter_mut().enumerate() {
